@@ -72,7 +72,13 @@ pub fn alphabet(w: i32, h: i32) -> Vec<Op> {
         Op::PushLayer(0.5, BlendMode::SrcOver),
         // a layer whose opacity rounds to zero (its pop composites nothing)
         Op::PushLayer(0.001, BlendMode::SrcOver),
+        // a layer composited with Src (an untouched layer still erases what is under it) and a draw
+        // that reaches the compositor without changing a pixel
+        Op::PushLayer(1.0, BlendMode::Src),
+        Op::FillRect(0., 0., wf, hf, SrcSpec::Solid(0), Opts::default()),
         Op::PopLayer,
+        // a surface-to-surface copy (it does not go through the compositor)
+        Op::Surface(SurfKind::Copy, 2, 2, [0, 0, 2, 2], [1, 1]),
         // sources positioned through the current transform (anything cached from it shows)
         Op::Fill(PathSpec::new(tri(0.25, hf - 0.25)), SrcSpec::Linear { stops: vec![Stop { pos: 0.0, color: 0xffff0000 }, Stop { pos: 1.0, color: 0xff0000ff }], spread: Spr::Pad, p: [0.5, 0.5, wf - 0.5, hf - 0.5] }, Opts::default()),
         Op::FillRect(0.5, 0.25, wf - 1.0, hf - 0.5, SrcSpec::Image { w: 2, h: 2, data: vec![0xffff0000, 0xff00ff00, 0xff0000ff, 0x80404040], repeat: true, bilinear: false, xf: IDENT }, Opts::default()),
@@ -116,8 +122,20 @@ fn enabled(t: &Track, op: &Op, max_open: usize) -> bool {
     }
 }
 
+/// the pixels the long-lived target starts with: transparent, or the distinct pattern (every
+/// history is then one that follows earlier drawing)
+static BASE_DISTINCT: std::sync::atomic::AtomicBool = std::sync::atomic::AtomicBool::new(false);
+
+fn base_dst() -> Dst {
+    if BASE_DISTINCT.load(std::sync::atomic::Ordering::SeqCst) {
+        Dst::Distinct
+    } else {
+        Dst::Zero
+    }
+}
+
 fn hist_str(w: i32, h: i32, hist: &[Op]) -> String {
-    Scene { w, h, dst: Dst::Zero, ops: hist.to_vec() }.to_string()
+    Scene { w, h, dst: base_dst(), ops: hist.to_vec() }.to_string()
 }
 
 fn state_key(s: &Snap, cursor: (Option<Point>, Option<Point>)) -> u64 {
@@ -134,7 +152,7 @@ fn check_last(w: i32, h: i32, hist: &[Op]) -> Result<u64, Violation> {
     let n = hist.len();
     let case = hist_str(w, h, hist);
     let r = guard(|| {
-        let mut a = DrawTarget::new(w, h);
+        let mut a = Scene { w, h, dst: base_dst(), ops: vec![] }.target();
         for op in &hist[..n - 1] {
             exec(&mut a, op);
         }
@@ -206,6 +224,59 @@ fn check_last(w: i32, h: i32, hist: &[Op]) -> Result<u64, Violation> {
         };
         return Err(Violation::new(format!("{}/differs-from-fresh-target", hist[n - 1].kind()), case, format!("last call gives different results on the reused and on a fresh target holding the same visible state: {}\nreused: {}\nfresh:  {}", what, super::common::hexs(&after.base), super::common::hexs(&b_after.base))));
     }
+    // a second fresh target, when a layer is open: the layers are not re-established by replaying
+    // what was drawn into them but by pushing them and copying their pixels in (another route to the
+    // same visible state: whatever a layer remembers beyond its pixels differs between the routes)
+    if t.open.iter().any(|o| matches!(o, Open::Layer(..))) {
+        let r2 = guard(|| {
+            let mut b = DrawTarget::from_vec(w, h, before.base.clone());
+            let (mut li, mut has_path) = (0, false);
+            for o in &t.open {
+                match o {
+                    Open::Clip(op, xf) => {
+                        b.set_transform(&xf_to(xf));
+                        exec(&mut b, op);
+                        has_path |= matches!(op, Op::PushClip(_));
+                    }
+                    Open::Layer(i, xf) => {
+                        b.set_transform(&xf_to(xf));
+                        exec(&mut b, &hist[*i]);
+                        let lay = &before.layers[li];
+                        li += 1;
+                        if lay.px.iter().any(|p| *p != 0) {
+                            if has_path {
+                                // a clip path in force would weight the copy
+                                return None;
+                            }
+                            let (x0, y0, lw, lh) = (lay.rect[0], lay.rect[1], lay.rect[2] - lay.rect[0], lay.rect[3] - lay.rect[1]);
+                            b.set_transform(&Transform::identity());
+                            let img = Image { width: lw, height: lh, data: &lay.px[..] };
+                            b.fill_rect(x0 as f32, y0 as f32, lw as f32, lh as f32, &Source::Image(img, ExtendMode::Pad, FilterMode::Nearest, Transform::translation(-x0 as f32, -y0 as f32)), &DrawOptions { blend_mode: BlendMode::Src, alpha: 1.0, antialias: AntialiasMode::Gray });
+                        }
+                    }
+                }
+            }
+            b.set_transform(&xf_to(&t.xf));
+            if snap(&b) != before {
+                return None;
+            }
+            exec(&mut b, &hist[n - 1]);
+            Some(snap(&b))
+        });
+        if let Ok(Some(b2)) = r2 {
+            if b2 != after {
+                let what = if b2.base != after.base {
+                    let i = (0..after.base.len()).find(|&i| after.base[i] != b2.base[i]).unwrap();
+                    format!("surface pixel ({},{}): reused target {:#010x}, fresh target {:#010x}", i as i32 % w, i as i32 / w, after.base[i], b2.base[i])
+                } else if b2.layers != after.layers {
+                    "layer buffers differ".to_string()
+                } else {
+                    "clip stack or transform differ".to_string()
+                };
+                return Err(Violation::new(format!("{}/differs-from-fresh-target-with-copied-layers", hist[n - 1].kind()), case, format!("last call gives different results on the reused target and on a fresh target whose open layers were pushed and filled with the same pixels (same visible state): {}\nreused: {}\nfresh:  {}", what, super::common::hexs(&after.base), super::common::hexs(&b2.base))));
+            }
+        }
+    }
     // the key also holds the transform the history established (the one a fresh target is given):
     // two histories that reach the same buffers but with a different expected transform must not be
     // merged, or a transform lost by an earlier call would be attributed to a history that never set it
@@ -270,10 +341,11 @@ fn no_growth(run: &Run, w: i32, h: i32) {
     });
 }
 
-fn explore(run: &Run, w: i32, h: i32, unmerged_depth: usize, merged_depth: usize) {
+fn explore(run: &Run, w: i32, h: i32, distinct: bool, unmerged_depth: usize, merged_depth: usize) {
+    BASE_DISTINCT.store(distinct, std::sync::atomic::Ordering::SeqCst);
     let alpha = alphabet(w, h);
     let na = alpha.len();
-    run.bound(&format!("histories {}x{}", w, h), format!("alphabet of {} calls; all well-nested histories (at most 2 open pushes) of length <= {} without merging, then breadth-first to length {} merging states on (pixels of every buffer, transform, the transform the history established, clip stack, layer stack, rasteriser-idle flag, hidden path cursor)", na, unmerged_depth, merged_depth));
+    run.bound(&format!("histories {}x{} from {}", w, h, if distinct { "the distinct pattern" } else { "a transparent surface" }), format!("alphabet of {} calls; all well-nested histories (at most 2 open pushes) of length <= {} without merging, then breadth-first to length {} merging states on (pixels of every buffer, transform, the transform the history established, clip stack, layer stack, rasteriser-idle flag, hidden path cursor)", na, unmerged_depth, merged_depth));
     // unmerged DFS, sharded by the first two ops
     run.par(na * na, |s, l| {
         fn rec(run: &Run, s: usize, l: &mut Local, w: i32, h: i32, alpha: &[Op], hist: &mut Vec<Op>, depth: usize) {
@@ -390,7 +462,7 @@ fn explore(run: &Run, w: i32, h: i32, unmerged_depth: usize, merged_depth: usize
             l.traces += next.len() as u64;
             l.count("merged_bfs_distinct_states", next.len() as u64);
         });
-        run.bound(&format!("merged level {} ({}x{})", level, w, h), format!("{} distinct states", next.len()));
+        run.bound(&format!("merged level {} ({}x{}{})", level, w, h, if distinct { ", distinct" } else { "" }), format!("{} distinct states", next.len()));
         frontier = next;
     }
 }
@@ -405,15 +477,18 @@ impl Check for C10 {
 
     fn run(&self, run: &Run) {
         let q = run.tier.quick();
-        run.rule("histories over a 30-call alphabet (fills of very different vertical extents, off-surface and degenerate paths, paths without MoveTo / without Close, curves, clip pushes of on/off-surface paths, clip rect, pops, zero-width and dashed strokes, singular / identity / fractional transforms, clear, fast-path fill_rect, layers) are explored exhaustively; every transition is compared with the same call on a fresh target holding the same visible state; non-trivial = history contains at least two drawing calls");
+        run.rule("histories over a 40-call alphabet (fills of very different vertical extents, off-surface and degenerate paths, paths without MoveTo / without Close, curves, clip pushes of on/off-surface paths, clip rect, pops, zero-width and dashed strokes, singular / identity / fractional transforms, clear, fast-path fill_rect, a transparent fill_rect, layers (one composited with Src), a surface copy) are explored exhaustively; every transition is compared with the same call on a fresh target holding the same visible state (open layers re-established by replaying their draws, and a second time by pushing them and copying their pixels in); non-trivial = history contains at least two drawing calls");
         run.assume("merging: two histories with equal (all buffers, transform, clip stack, layer stack, rasteriser idle flag, hidden path cursor) differ at most in the rasteriser's arena address and cur_y, both re-initialised before use; keys are 64-bit hashes");
         no_growth(run, 4, 4);
         if q {
-            explore(run, 4, 4, 3, 4);
+            explore(run, 4, 4, false, 3, 4);
+            explore(run, 4, 4, true, 3, 3);
         } else {
-            explore(run, 4, 4, 4, 6);
-            explore(run, 3, 6, 3, 5);
+            explore(run, 4, 4, false, 4, 6);
+            explore(run, 4, 4, true, 4, 5);
+            explore(run, 3, 6, false, 3, 5);
         }
+        BASE_DISTINCT.store(false, std::sync::atomic::Ordering::SeqCst);
     }
 
     fn replay(&self, case: &str) -> Result<Option<Violation>, String> {
@@ -428,6 +503,7 @@ impl Check for C10 {
         if s.ops.is_empty() {
             return Ok(None);
         }
+        BASE_DISTINCT.store(s.dst == Dst::Distinct, std::sync::atomic::Ordering::SeqCst);
         // report the first transition of the history that fails
         for n in 1..=s.ops.len() {
             if let Err(v) = check_last(s.w, s.h, &s.ops[..n]) {
